@@ -97,7 +97,7 @@ fn rec(base: &mut Pos, opts: &[(u8, Color, Kind)], start: usize, left: usize, ki
 pub fn run(ctx: &Ctx, n: usize, total: &Mutex<Counts>) -> (u64, u64) {
     // (target, victims)
     let mut items: Vec<(u8, Kind)> = vec![];
-    let targets: Vec<u8> = if n >= 4 { vec![sq(3, 4)] } else { vec![sq(3, 4), sq(7, 7 - 7), sq(4, 7)] };
+    let targets: Vec<u8> = if n >= 3 { vec![sq(3, 4)] } else { vec![sq(3, 4), sq(7, 0), sq(4, 7)] };
     for t in &targets {
         for v in [Kind::P, Kind::N, Kind::B, Kind::R, Kind::Q] {
             if v == Kind::P && (rc::rank_of(*t) == 0 || rc::rank_of(*t) == 7) {
